@@ -239,6 +239,7 @@ func (e *explorer) explore(prefix []int) {
 		return
 	}
 	x := e.runOnce(prefix)
+	e.t.Eval(1) // also the sign of life for the engine's non-termination watchdog
 	e.check(x)
 	if x.res.Diverged {
 		return
@@ -314,7 +315,6 @@ func runScenario(t *engine.T, sc scenario, yields bool, bound, maxExec int, budg
 	if !e.stop {
 		e.explore(nil)
 	}
-	t.Eval(e.execs)
 	t.AddStates(e.execs)
 	t.AddTransitions(e.totalPts)
 	t.AddTraces(e.execs)
